@@ -338,6 +338,7 @@ type sshResult struct {
 	local    net.Addr
 	attempts int
 	authOK   bool
+	authErr  error
 	chans    []*sshChanResult
 	err      error
 }
@@ -383,6 +384,7 @@ func (e *labEnv) runSSHConn(ci int, sc sshConn, user string, script *sshScript) 
 	cc, chans, reqs, err := ssh.NewClientConn(c, addr, cfg)
 	res.attempts = i
 	res.authOK = err == nil
+	res.authErr = err
 	wantN, wantOK := sc.expectedAttempts()
 	if err != nil {
 		if wantOK {
@@ -469,9 +471,9 @@ func (e *labEnv) runSSHConn(ci int, sc sshConn, user string, script *sshScript) 
 }
 
 func checkSSH(t testing.TB, c sshCase) error {
-	err := checkSSHOnce(t, c)
+	err := guard(func() error { return checkSSHOnce(t, c) })
 	if _, ok := err.(*timeoutErr); ok {
-		if err2 := checkSSHOnce(t, c); err2 == nil {
+		if err2 := guard(func() error { return checkSSHOnce(t, c) }); err2 == nil {
 			vlib.Open(prop).Flaky("ssh: " + err.Error())
 			return nil
 		} else {
@@ -551,7 +553,7 @@ func checkSSHOnce(t testing.TB, c sshCase) error {
 			want = append(want, cred{users[ci], sc.Passwords[i]})
 		}
 		if fmt.Sprint(attempts) != fmt.Sprint(want) || len(attempts) != len(want) {
-			return fmt.Errorf("conn %d: backend saw the login attempts %q, the client made %q", ci, attempts, want)
+			return fmt.Errorf("conn %d: backend saw the login attempts %q, the client made %q (client's login result: %v)", ci, attempts, want, r.authErr)
 		}
 		if r.authOK != wantOK || r.attempts != wantN {
 			if r.err != nil {
@@ -807,7 +809,7 @@ func TestSSH(t *testing.T) {
 	if vlib.ReplayCase("TestSSH", &rc) {
 		if err := checkSSH(t, rc); err != nil {
 			if isInfra(err) {
-				t.Fatalf("%v", err)
+				infraExit(err)
 			}
 			r.Violation(t, "TestSSH", rc, err.Error())
 		}
@@ -841,7 +843,7 @@ func TestSSH(t *testing.T) {
 		}
 		if err := checkSSH(t, c); err != nil {
 			if isInfra(err) {
-				rt.Fatalf("%v", err)
+				infraExit(err)
 			}
 			r.Fail(rt, "TestSSH", c, "%v", err)
 		}
